@@ -50,6 +50,12 @@ def detect_waiter_shape(prog, f_push):
     """the element type of PoolInner.waiting is read off the locals of the real push()"""
     global WAITER_TUPLES
     WAITER_TUPLES = any("VecDeque<(tokio::sync::oneshot::Sender<" in t for t in f_push.locals.values())
+    if not WAITER_TUPLES:
+        # push() may have handed the waiter walk to a helper: look at every function of the pool module
+        for f in prog.funcs:
+            if "pool::" in f.name and any("VecDeque<(tokio::sync::oneshot::Sender<" in t for t in list(f.locals.values()) + [a[1] for a in f.args]):
+                WAITER_TUPLES = True
+                break
     return WAITER_TUPLES
 
 
